@@ -4,7 +4,7 @@
 import json, pathlib, subprocess, sys
 
 d = pathlib.Path(sys.argv[1]).resolve(); prop = sys.argv[2]; only = sys.argv[3:]
-mech = {m["patch"]: m for m in json.load(open(d / "mechanisms.json"))}
+mech = {m["patch"].removesuffix(".patch"): m for m in json.load(open(d / "mechanisms.json"))}
 kfp = pathlib.Path(__file__).resolve().parent.parent / "known_findings.json"
 kf = json.load(open(kfp))
 for patch in sorted(d.glob("*.patch")):
@@ -13,10 +13,10 @@ for patch in sorted(d.glob("*.patch")):
         continue
     msg = (d / f"{name}.msg").read_text().strip() + "\n"
     assert msg.startswith("fix: "), name
-    r = subprocess.run(["git", "-C", "/repo", "apply", "--check", str(patch)], capture_output=True, text=True)
+    r = subprocess.run(["git", "-C", "/repo", "apply", "--include=src/*", "--check", str(patch)], capture_output=True, text=True)
     if r.returncode:
         print("SKIP (does not apply):", name, r.stderr.strip()[:200]); continue
-    subprocess.run(["git", "-C", "/repo", "apply", str(patch)], check=True)
+    subprocess.run(["git", "-C", "/repo", "apply", "--include=src/*", str(patch)], check=True)
     subprocess.run(["git", "-C", "/repo", "commit", "-qam", msg], check=True)
     sha = subprocess.run(["git", "-C", "/repo", "log", "--format=%h", "-n1"], capture_output=True, text=True).stdout.strip()
     info = mech.get(name, {"mechanisms": [], "summary": msg.splitlines()[0]})
